@@ -1,4 +1,7 @@
 mod atomic_props;
+mod battery;
+mod cache_props;
+mod refcomp;
 mod cnf_props;
 mod common;
 mod conc_props;
@@ -44,6 +47,7 @@ fn main() {
         "C18" => sample_props::c18(&a),
         "C08" => atomic_props::c08(&a),
         "C10" => persist_props::c10(&a),
+        "C12" => cache_props::c12(&a),
         "C13" => stream_props::c13(&a),
         "C14" => conc_props::c14(&a),
         "C15" => conc_props::c15(&a),
@@ -51,6 +55,13 @@ fn main() {
         "C16" => history_props::c16(&a),
         "C19" => cnf_props::c19(&a),
         "C20" => optimal_props::c20(&a),
+        "export" => probe_export(&a.out, a.seed as u32),
         other => { eprintln!("unknown property {other}"); std::process::exit(2); }
     }
+}
+
+#[allow(dead_code)]
+pub fn probe_export(path: &str, n: u32) {
+    let d = ddnnife::Ddnnf::from_file(std::path::Path::new(path), Some(n));
+    print!("{}", common::export_nodes(&d));
 }
